@@ -15,7 +15,7 @@ from ..core import Ctx, Result, guarded
 ID = "C19"
 LEVEL = "exploration"
 RULE = ("Hypothesis RuleBasedStateMachine over one temporary results file: rule save_json(name, Output) with names from a small "
-        "alphabet (so repeats happen) plus Unicode names, matrices of drawn shapes (>=1 row and column; 2-D gap matrices, 2-D and 3-D "
+        "alphabet (so repeats happen) plus Unicode names (a fresh Output per save, or ONE Output object given new matrices and arguments), matrices of drawn shapes (>=1 row and column; 2-D gap matrices, 2-D and 3-D "
         "action arrays) containing NaN, +-inf, negative, huge and subnormal numbers, metadata with str/int/float/bool/None/Path/"
         "tuple/nested dict/arbitrary objects. Model = dict name -> JSON image of the FIRST output saved under that name. After "
         "every save: get_outputs_from_file has exactly the model's names; data and actions equal the saved arrays (shape, values, NaN "
